@@ -123,6 +123,8 @@ structure Env where
   /-- the hand-written parsers of the `special` types (A2ML, IF_DATA): a parameter here, instantiated by the
       A2ML / IF_DATA model; arguments: type, context, start offset, tokens, strict -/
   special : Nat → Ctx → Nat → Array PTok → Bool → PState → PRes Val := fun _ _ _ _ _ _ => .panic
+  /-- the hand-written `stringify` of the `special` types (`A2ml::stringify`, `IfData::stringify`): type, indent, value -/
+  specialWrite : Nat → Nat → Val → List Char := fun _ _ _ => []
 
 abbrev PM (α : Type) := Env → PState → PRes α
 
@@ -503,8 +505,11 @@ def parseVersion (fuel : Nat) (ctx : Ctx) : PM Nat := do
   match (← peekToken) with
   | some token =>
     let ident ← attempt (getIdentifier ctx)
+    -- (`if let Ok("ASAP2_VERSION") = ident.as_deref()`: the identifier that was read, which is not the peeked token
+    --  when the file starts with a comment; symbols are interned texts, so comparing symbols is comparing texts)
+    let s1 ← getState
     let isVer : Bool := match ident with
-      | .ok _ => token.sym == e.known.tagAsap2Version
+      | .ok _ => (match e.toks[s1.pos - 1]? with | some t => t.sym == e.known.tagAsap2Version | none => false)
       | .error _ => false
     if isVer then
       let verCtx : Ctx := ⟨[], token.fileid, token.line⟩
@@ -676,6 +681,7 @@ def stringify (fuel : Nat) (e : Env) (indent : Nat) (v : Val) : List Char :=
                isBlock := false, text := c.text, pos := none, included := c.included } : TagInfo)
           head ++ addGroup indent (group ++ cmts)
         else head
+      | some .special => e.specialWrite ty indent v
       | _ => []
     | _ => []
 
